@@ -242,6 +242,32 @@ for j, sj in DROP.items():
                               "impl": "release" if acc else r[2], "spec": "release" if want else "refuse"}})
         hist["tool-made-skr"] = hist.get("tool-made-skr", 0) + 1
 
+# ---- the previous SKR as a file: its last bundle is signed by two KSKs that share their 16-bit key tag (key tags are checksums, not identifiers);
+#      each of the two signers has to stay published for the retire-safety period, whichever the new SKR withdraws
+from kskm.skr import response_from_xml as _skr_from_xml
+_kta, _ktb = ksrxml.POOL.rsa_tag_collision(8, 257, 1024)
+TWK = {"tw1": ksrxml.mk_key(_kta, alg=8, flags=257, ident="Ktwin1"), "tw2": ksrxml.mk_key(_ktb, alg=8, flags=257, ident="Ktwin2")}
+ksrxml.POOL.save()
+_bp = ksrxml.default_zsk_policy(publish_safety=D(days=10), retire_safety=D(days=10))
+_both = {i: {"publish": ["tw1", "tw2"], "sign": ["tw1", "tw2"], "revoke": []} for i in range(1, 10)}
+_prev_tw = skrgen.simulate_skr(make_req("prev-twins", T0), _both, TWK, _bp)
+_prev_loaded = vlib.run_impl(_skr_from_xml, ksrxml.render_skr(_prev_tw))
+if _prev_loaded[0] != "ok":
+    rep.violation("impl-vs-spec", f"a previous SKR double-signed by two KSKs with equal key tags does not load: {_prev_loaded[2]}", {"kind": "equal-ksk-tags"})
+else:
+    for keep, want_ok in ((["tw1", "tw2"], True), (["tw1"], False), (["tw2"], False)):
+        for first_only in (False, True):
+            sch = {i: {"publish": list(keep) if not (first_only and i > 1) else ["tw1", "tw2"], "sign": list(keep), "revoke": []} for i in range(1, 10)}
+            if first_only and want_ok:
+                continue
+            new_tw = skrgen.simulate_skr(make_req("new-twins", T0 + D(days=90)), sch, TWK, _bp)
+            r_ = vlib.run_impl(check_last_skr_and_new_skr, _prev_loaded[1], skrgen.k_response(new_tw), RequestPolicy())
+            hist["equal-ksk-tags"] = hist.get("equal-ksk-tags", 0) + 1
+            if (r_[0] == "ok") != want_ok:
+                rep.violation("impl-vs-spec", f"previous SKR (read from its file) signed by Ktwin1 and Ktwin2, which share key tag {TWK['tw1']['tag']}; new SKR publishes {keep}"
+                              f"{' in its first bundle' if first_only else ''}: {'released' if r_[0] == 'ok' else 'refused (' + r_[2] + ')'}, the safety rules say "
+                              f"{'release' if want_ok else 'refuse (a signer of the last bundle is withdrawn at once)'}", {"kind": "equal-ksk-tags", "keeps": keep})
+
 # ---- "released" means the file the ceremony hands over: the real ksrsigner, previous SKR and KSR on disk, output path observed afterwards
 import shutil
 import tempfile
